@@ -41,10 +41,10 @@ theorem iter_skipper_quiet (s : IW.Script) (t : Nat) (c : IW.Cfg) (h : (c.th t).
   unfold IW.step; simp [h, IW.setTh, IW.ret, IW.Req.isLoop, IW.Pc.quiet]
 
 /-- safety invariants hold in histories with skips: `ReqOk` admits `skip` requests -/
-theorem iter_skip_histories_safe (s : IW.Script) (hf : IW.Fused s) (ps : Nat → List IW.Req)
+theorem iter_skip_histories_safe (s : IW.Script) (ps : Nat → List IW.Req)
     (hok : ∀ t, ∀ r ∈ ps t, IW.ReqOk r) (σ : List Nat) (hW : (IW.run s σ (IW.init ps)).R < W) :
     IW.Inv s (IW.run s σ (IW.init ps)) ∧ IW.OInv s (IW.run s σ (IW.init ps)) :=
-  ⟨IW.inv_reach s hf ps hok σ hW, IW.oinv_run hf σ (IW.inv_init s ps hok) (IW.oinv_init s ps) hW⟩
+  ⟨IW.inv_reach s ps hok σ hW, IW.oinv_run σ (IW.inv_init s ps hok) (IW.oinv_init s ps) hW⟩
 
 example : IW.ReqOk .skip := Or.inl rfl
 
